@@ -49,7 +49,7 @@ def build(chk):
     with open(ov, "w") as f:
         json.dump({"Replace": {os.path.join(common.HARNESS, "cmd", "mxstep", "mutex_gen.go"): gen}}, f)
     out = os.path.join(td, "mxstep")
-    cmd = ["go", "build", "-tags", "verif", "-overlay", ov]
+    cmd = ["go", "build", "-tags", "verif mxgen", "-overlay", ov]
     if os.path.realpath(common.REPO) != "/repo":
         mf = os.path.join(td, "go.mod")
         with open(mf, "w") as f:
@@ -60,14 +60,17 @@ def build(chk):
     cmd += ["-o", out, "./cmd/mxstep"]
     rc, log = common.sh(cmd, cwd=common.HARNESS, env=common.GOENV, timeout=900)
     if rc != 0:
-        # does the harness build without the generated copy's callers? If loom itself does not compile the
-        # ordinary coop build reports it; here: the generated copy does not compile -> toolchain matter
-        if "mutex_gen.go" in log and "lixianmin" not in log:
+        # a source text never seen before whose copy does not compile with the shims: a toolchain matter (note);
+        # anything else (known source, or errors in loom / the harness itself) is an error of this check
+        if "mutex_gen.go" in log and "lixianmin" not in log and info["functions_sha256"] not in READ_AGAINST_MODEL:
             return None, dict(info, skipped="generated copy of sync.Mutex does not compile with the shims; stream skipped: " + log[-400:])
         chk.infra_errors.append("mxstep harness does not build against /repo working tree: " + log[-1500:])
         return None, info
     lay = common.run_impl(out, ["c17xinfo"])[0]
     info["layout"] = lay
+    if "generated=true" not in lay:
+        chk.infra_errors.append("mxstep binary does not contain the generated copy of sync.Mutex: " + lay)
+        return None, info
     if not lay.startswith("layout=true"):
         return None, dict(info, skipped="sync.Mutex of this toolchain is not struct{state int32; sema uint32} at offset 0; stream skipped: " + lay)
     return out, info
